@@ -9,6 +9,7 @@ import (
 	"pgregory.net/rapid"
 
 	"verifharness/common"
+	"verifharness/refmodel"
 	"verifharness/simfs"
 )
 
@@ -114,7 +115,7 @@ func genOps(t *rapid.T, pr profile, seg, maxOps int, prev *[]int) []COp {
 func genAppendOp(t *rapid.T, pr profile, seg int, prev *[]int, minN, maxN int) COp {
 	{
 		{
-			op := COp{K: "append", Start: rapid.SampledFrom([]uint64{1, 1, 2, 5, 1000}).Draw(t, "start")}
+			op := COp{K: "append", Start: rapid.SampledFrom([]uint64{1, 1, 2, 5, 1000, refmodel.StartCont, refmodel.StartCont, 1<<63 - 1}).Draw(t, "start")}
 			m := rapid.IntRange(minN, maxN).Draw(t, "n")
 			for j := 0; j < m; j++ {
 				e := genESpec(t, pr, seg)
